@@ -145,6 +145,9 @@ type connState struct {
 
 	closeCall, closeRet atomic.Int64
 	onClose             atomic.Int64
+	// closeJobRan: tick at which the close handling ran - a job the close callback queues with
+	// MustExecute, as nbhttp does with its own close handling
+	closeJobRan atomic.Int64
 	harnessCloses       bool
 }
 
@@ -483,6 +486,9 @@ func runCase(r *h.Run, c caseT) {
 		if ee := curEnv.Load(); ee != nil {
 			if cs := ee.find(nc); cs != nil {
 				cs.onClose.Store(tick())
+				// the close callback runs after the closed flag was set: whatever the queue holds
+				// behind this job was appended to a closed connection
+				nc.MustExecute(func() { cs.closeJobRan.CompareAndSwap(0, tick()) })
 			}
 		}
 	})
@@ -936,6 +942,12 @@ func (e *env) judge(r *h.Run, lost bool) {
 		}
 		if rec.must {
 			continue
+		}
+		// close handling runs after all work queued before it - and nothing Execute accepted comes
+		// after it: the close handling job is queued (FIFO) after the connection was closed, so a
+		// job behind it was accepted by an Execute that found the connection closed
+		if cj := cs.closeJobRan.Load(); cj != 0 && acc && ns >= 1 && rec.start[0].Load() > cj {
+			r.Violate("c05:execute-accepted-job-ran-after-close-handling", fmt.Sprintf("%s: Execute returned true and the job ran (tick %d) after the close handling of the connection (a job queued with MustExecute by the close callback, ran at tick %d): it was appended to a connection that was closed already\n%s\n%s", cfg, rec.start[0].Load(), cj, e.describe(rec), e.neighbourhood(rec.conn, cj, rec.start[0].Load())), c)
 		}
 		// closed-connection clauses
 		cc, cr, oc := cs.closeCall.Load(), cs.closeRet.Load(), cs.onClose.Load()
